@@ -7,11 +7,22 @@ Import ListNotations.
 Open Scope bool_scope.
 Open Scope Z_scope.
 
-(* strings.NewReplacer("CHF", "", "'", "").Replace: both patterns are deleted in one
-   left-to-right pass; deleting "CHF" first and "'" afterwards gives the same string (neither
-   deletion can complete an occurrence of the pattern deleted before it: see the remark in
-   Proofs/ImpProofsA.v) *)
-Definition sc_clean (s : str) : str := remove_byte 39 (remove_all s_CHF s).
+(* strings.NewReplacer("CHF", "", "'", "").Replace: one left-to-right pass; at each position the
+   pattern that matches there (the two patterns start with different bytes, so at most one does)
+   is deleted, otherwise the byte is copied.  Proofs/ImpProofsA.v sc_clean_spec shows that this
+   equals deleting every "CHF" and then every "'". *)
+Fixpoint sc_clean_fuel (fuel : nat) (s : str) : str :=
+  match fuel with
+  | O => s
+  | S f =>
+    match s with
+    | [] => []
+    | c :: t => if is_prefix s_CHF s then sc_clean_fuel f (skipn 3 s)
+                else if c =? 39 then sc_clean_fuel f t
+                else c :: sc_clean_fuel f t
+    end
+  end.
+Definition sc_clean (s : str) : str := sc_clean_fuel (length s) s.
 
 (* the trimmed non-empty fields 2, 4, 5, 6, 7, 8 joined by blanks *)
 Definition sc_words (r : list str) : option str :=
